@@ -125,10 +125,10 @@ def run_property(modname, tier, seed, jobs=None, only=None, verbose=False):
     reports = _run_pool(modname, cells, seed, tier, jobs, verbose)
     reports.sort(key=lambda r: r["cell"])
     aux = mod.aux(tier, seed) if hasattr(mod, "aux") else None
-    return finish(mod, pid, tier, seed, reports, aux, time.time() - t0)
+    return finish(mod, pid, tier, seed, reports, aux, time.time() - t0, partial=bool(only))
 
 
-def finish(mod, pid, tier, seed, reports, aux, wall):
+def finish(mod, pid, tier, seed, reports, aux, wall, partial=False):
     known = load_known(pid)
     agg = {"cells": len(reports), "paths": 0, "obligations": 0, "proved": 0, "refuted": 0, "unknown": 0, "queries": 0,
            "solver_s": 0.0, "trace_s": 0.0, "pruned_branches": 0, "unknown_branches": 0, "nontrivial": 0, "cuts": 0,
@@ -197,7 +197,7 @@ def finish(mod, pid, tier, seed, reports, aux, wall):
     status = 0
     if errors:
         status = 3
-    if conclusive < floor and not new_violations:
+    if conclusive < floor and not new_violations and not partial:
         status = 3
         errors.append(f"conclusive obligations {conclusive} below floor {floor}")
     if new_violations:
@@ -263,7 +263,9 @@ def finish(mod, pid, tier, seed, reports, aux, wall):
     if aux and aux.get("coverage_extra"):
         evidence["coverage"].update(aux["coverage_extra"])
     os.makedirs(os.path.join(OUTDIR, "evidence"), exist_ok=True)
-    json.dump(evidence, open(os.path.join(OUTDIR, "evidence", f"{pid}.json"), "w"), indent=1, default=str)
+    # a run restricted with --only is a debugging aid: it must not replace the evidence of the full check
+    ev_name = f"{pid}.only.json" if partial else f"{pid}.json"
+    json.dump(evidence, open(os.path.join(OUTDIR, "evidence", ev_name), "w"), indent=1, default=str)
     print(f"[{pid}] tier={tier} cells={agg['cells']} paths={agg['paths']} obligations={agg['obligations']} proved={agg['proved']} "
           f"refuted={agg['refuted']} unknown={agg['unknown']} by_mode={by_mode} queries={agg['queries']} solver_s={agg['solver_s']:.1f} "
           f"inconclusive={len(inconclusive)} errors={len(errors)} wall={wall:.1f}s")
